@@ -13,7 +13,7 @@ import numpy as np
 
 from harness import common
 
-MODULES = ['CirqVerif.Props.C18', 'CirqVerif.Props.C18Views', 'CirqVerif.Props.C10', 'CirqVerif.Props.C12Terminal']
+MODULES = ['CirqVerif.Props.C18', 'CirqVerif.Props.C18Views', 'CirqVerif.Props.C10', 'CirqVerif.Props.C12Terminal', 'CirqVerif.Props.C12Shapes']
 
 
 def _exc(fn):
